@@ -19,8 +19,15 @@ def canon(x):
     return json.dumps(x, sort_keys=True, ensure_ascii=False, allow_nan=False)
 
 
+def quiet():
+    import logging
+    logging.getLogger("nbdime").setLevel(logging.CRITICAL)
+    logging.getLogger().setLevel(logging.CRITICAL)
+
+
 def reset_state():
     """Reset nbdime's module-level state at the top of every case (not used by C12)."""
+    quiet()
     import nbdime.diffing.notebooks as nbs
     import nbdime.merging.generic as mg
     import nbformat.v4.nbbase as nbbase
